@@ -34,11 +34,19 @@ G_RestartWithQueued ==
     /\ crashes > 0 /\ \E j \in Jobs : api[j].jc # 0 /\ Queued(api[j]) /\ api[j].sa <= now /\ ~api[j].adm
     /\ \E k \in Jobs : Active(api[k]) /\ api[k].jc # 0
 
+\* the controller restarted while an active Job of a JobConfig was being deleted (deletionTimestamp set, not yet finished)
+\* and another Job of that JobConfig was waiting
+G_RestartWithDeletingActive ==
+    /\ crashes > 0
+    /\ \E k \in Jobs : Active(api[k]) /\ api[k].del /\ api[k].jc # 0
+                       /\ \E j \in Jobs : api[j].jc = api[k].jc /\ Queued(api[j]) /\ api[j].sa <= now /\ ~api[j].adm /\ api[j].pol # "Allow"
+
 EmitGoal(i, name, G) == ~G \/ TLCGet(i) >= K \/ (TLCSet(i, TLCGet(i) + 1) /\ PrintT(<<"SCHED", ToJson(sched), name>>))
 Goal1 == EmitGoal(1, "StatusAheadJobGone", G_StatusAheadJobGone)
 Goal2 == EmitGoal(2, "StatusAheadSchedGone", G_StatusAheadSchedGone)
 Goal3 == EmitGoal(3, "StartFailedSlotHeld", G_StartFailedSlotHeld)
 Goal4 == EmitGoal(4, "TwoQueuedCapacityFreed", G_TwoQueuedCapacityFreed)
 Goal5 == EmitGoal(5, "RestartWithQueued", G_RestartWithQueued)
+Goal6 == EmitGoal(6, "RestartWithDeletingActive", G_RestartWithDeletingActive)
 Stop == \E i \in Goals : TLCGet(i) < K
 ====
